@@ -288,8 +288,17 @@ theorem IndexSame.bandErrors_eq (b : Nat) : bandErrors s' b = bandErrors s b := 
     simp only [indexCheckError, h.nums, h2, funext h3]
   simp only [bandErrors, h.bandReadable_eq, h1, h5, h.nums, funext h4]
 
+theorem IndexSame.headLost_eq (b : Nat) : headLost s' b = headLost s b := by
+  simp only [headLost, h.bandPresent_eq, h.hunk]
+
+theorem IndexSame.errorsBelow_eq (b : Nat) : errorsBelow s' b = errorsBelow s b := by
+  induction b with
+  | zero => rfl
+  | succ b ih =>
+    simp only [errorsBelow, h.bandPresent_eq, h.bandErrors_eq, h.isComplete_eq, h.headLost_eq, ih]
+
 theorem IndexSame.listErrors_eq (n : Nat) : listErrors s' n = listErrors s n := by
-  simp only [listErrors, h.chain_eq, funext h.bandErrors_eq]
+  simp only [listErrors, h.bandErrors_eq, h.isComplete_eq, h.errorsBelow_eq]
 
 theorem IndexSame.headError_eq (b : Nat) : headError s' b = headError s b := by
   simp only [headError, h.head]
